@@ -56,13 +56,31 @@ def run_program(chk, fn, src, twin_src, args, script, gscript, stats, forced=Non
             sel = "outer_w > " + sel
             chk.dist("selector:through-a-caller")
         mod = progrun.make(src + wrapper, "verif_c02_impl")
+        raw = rng.random() < 0.25
+        kept = []
         try:
             got = []
-            probe = ptera.probing(sel, env=mod.__dict__)
+            probe = ptera.probing(sel, env=mod.__dict__, raw=raw)
             # the values as they are when the event is delivered (lists can be extended in place later)
-            probe.subscribe(lambda e: got.append({k: progrun.plain(v) for k, v in e.items()}))
+            if raw:
+                # raw events carry capture objects: the consumer may keep them and read them after the call
+                probe.subscribe(lambda e: (kept.append(e), got.append({k: progrun.plain(c.value) for k, c in e.items()})))
+            else:
+                probe.subscribe(lambda e: got.append({k: progrun.plain(v) for k, v in e.items()}))
             with probe:
                 res = progrun.drive(mod, getattr(mod, entry), args, script, gscript)
+            if raw:
+                chk.dist("events:raw")
+                later = [{k: progrun.plain(c.value) for k, c in e.items()} for e in kept]
+                for i, (a, b) in enumerate(zip(got, later)):
+                    same = all(a.get(k) == b.get(k) for k in set(a) | set(b)
+                               if not isinstance(a.get(k), (list, dict)) and not isinstance(b.get(k), (list, dict)))
+                    if not same:
+                        chk.violation("oracle", "probing(%r, raw=True): event %d showed %s when it was delivered and shows %s "
+                                      "after the call" % (sel, i, str(a)[:100], str(b)[:100]),
+                                      {"source": src, "selector": sel, "args": args, "script": script, "gen_script": gscript,
+                                       "delivered": got, "read_later": later})
+                        break
         except BaseException as e:  # noqa
             got = "activation/run failed: %s: %s" % (type(e).__name__, str(e)[:100])
             res = None
@@ -94,7 +112,7 @@ def run(chk):
     stats = {"programs": 0, "selectors": 0, "events": 0}
     n = 100 if chk.tier == "quick" else 2500
     for i in range(n):
-        gen = pylite.Gen(rng)
+        gen = pylite.Gen(rng, weights={"yieldfrom": 1})
         fn = gen.function(generator=rng.random() < 0.25, size=rng.randrange(4, 12))
         src = pylite.render(fn)
         twin = pylite.render(fn, twin=True)
@@ -146,6 +164,10 @@ DIRECTED = [
         ("while", "C(1)", [("aug", ("name", "x"), "+", "3")]),
         ("if", "C(2)", [("assign", [("name", "x")], "H(3, x)")], [("ann", "x", "int", "H(4, x)")]),
         ("return", "x")], params=("a",))),
+    ("assignment expression in the index of a target", _fn([
+        ("subwalrus", "x", "H(1)", "H(2)"),
+        ("for", ("name", "i"), "T(3, 'list', 2)", [("subwalrus", "x", "H(4, i)", "i")], []),
+        ("return", "x")])),
     ("tuple, starred, nested and chained targets; import", _fn([
         ("assign", [("tuple", [("name", "x"), ("name", "y")])], "T(1, 'tuple', 2)"),
         ("assign", [("tuple", [("name", "y"), ("star", "x")])], "T(2, 'list', 3)"),
